@@ -318,6 +318,20 @@ fn main() {
             });
             write_lines(&args[2], &results);
         }
+        "run-files" => {
+            // each input line: {"files": [[name, source], ...]} in the order of the command line; output: the result record
+            // of run_split (compiled in a child as `penne a.pn b.pn ...` does, executed)
+            let lines = read_lines(&args[1]);
+            let results = par_map(&lines, |i, line| {
+                let v: Value = serde_json::from_str(line).expect("json");
+                let files: Vec<(String, String)> = v["files"].as_array().map(|a| a.iter()
+                    .map(|f| (f[0].as_str().unwrap_or("").to_string(), f[1].as_str().unwrap_or("").to_string())).collect()).unwrap_or_default();
+                let mut r = run_split(&files);
+                r["i"] = json!(i);
+                r.to_string()
+            });
+            write_lines(&args[2], &results);
+        }
         "gen" => {
             if args.len() < 4 {
                 usage();
